@@ -85,6 +85,18 @@ impl CompileState<'_> {
             fields.push((field_name.clone(), e));
         }
 
+        // Every field of the definition must be given (directly or through a source struct).
+        if let Some(missing) = struct_def
+            .iter()
+            .find(|f| !s.fields.iter().any(|(n, _)| n.inner == f.identifier.inner))
+        {
+            let note = format!(
+                "field `{}` of `Struct {}` is missing in the struct literal",
+                missing.identifier.inner, s.identifier
+            );
+            return Err(self.err(NotDefined(note, s.identifier.span)));
+        }
+
         Ok(thir::NamedStruct {
             identifier: s.identifier.clone(),
             fields,
